@@ -15,6 +15,9 @@ Inductive ez_obs :=
 
 Inductive c18case :=
 | EzCase (fs : fields) (defaults : list val) (env_layer flag_layer : val) (path_idx valid_idx : N) (watch : bool)
+         (files : list (str * outcome val)) (obs : ez_obs)
+(* the same, for a config type whose ConfigPath() answers (path, true) even when the path is empty *)
+| EzCaseAlways (fs : fields) (defaults : list val) (env_layer flag_layer : val) (path_idx valid_idx : N) (watch : bool)
          (files : list (str * outcome val)) (obs : ez_obs).
 
 Definition vals_eqb (a b : list val) : bool := val_eqb (VList a) (VList b).
@@ -32,9 +35,10 @@ Fixpoint pairs_eqb (a b : list (list val * list val)) : bool :=
   | _, _ => false
   end.
 
-Definition config_path_of (idx : N) (c : list val) : option str :=
+Definition config_path_of (always : bool) (idx : N) (c : list val) : option str :=
   match nth_error c (N.to_nat idx) with
   | Some (VStr (ch :: s)) => Some (ch :: s)
+  | Some (VStr []) => if always then Some [] else None
   | _ => None
   end.
 Definition verify_of (idx : N) (c : list val) : bool :=
@@ -49,11 +53,12 @@ Definition hyps_ok (fs : fields) (d : list val) (envl flagl : val) (files : list
   cfg_ok fs && spine_fields fs d && layer_ok fs envl && layer_ok fs flagl &&
   forallb (fun e => match snd e with Ok l => layer_ok fs l | _ => true end) files.
 
-Definition check (c : c18case) : N :=
-  match c with
-  | EzCase fs d envl flagl pidx vidx watch files (EzObs ok view vlog ev_empty ncb nerr upd) =>
+Definition check_with (always : bool) (fs : fields) (d : list val) (envl flagl : val) (pidx vidx : N) (watch : bool)
+    (files : list (str * outcome val)) (o : ez_obs) : N :=
+  match o with
+  | EzObs ok view vlog ev_empty ncb nerr upd =>
       let verify := verify_of vidx in
-      let r := ez_run fs d verify envl flagl (config_path_of pidx) (file_of files) watch in
+      let r := ez_run fs d verify envl flagl (config_path_of always pidx) (file_of files) watch in
       if negb (hyps_ok fs d envl flagl files) then 2 else
       let base_ok :=
         Bool.eqb ok (ez_ok r) && vlogs_eqb vlog (ez_vlog r) && (ncb =? 0) && (nerr =? 0) && negb (ez_hang r) &&
@@ -79,6 +84,12 @@ Definition check (c : c18case) : N :=
       | Some _, None => 3
       | None, _ => 0
       end
+  end.
+
+Definition check (c : c18case) : N :=
+  match c with
+  | EzCase fs d envl flagl pidx vidx watch files o => check_with false fs d envl flagl pidx vidx watch files o
+  | EzCaseAlways fs d envl flagl pidx vidx watch files o => check_with true fs d envl flagl pidx vidx watch files o
   end.
 
 Fixpoint run_from (i : N) (cs : list c18case) : list (N * N) :=
